@@ -51,14 +51,47 @@ PROPS = {
     'C05': {
         'title': 'Embedded log never loses or resurrects records',
         'level': 'proof',
-        'level_text': 'Unbounded deductive proof (Verus/Z3) that every public mutator of EmbeddedWal (append_entry, record_checkpoint, sentinel writers; stats read-only) preserves the representation invariant wf and moves the ghost view pending() = records a scan of the region returns with sequence > checkpoint exactly as the reference list does, for all region sizes, payload sizes and histories (invariant, no bound); rejected appends leave the object unchanged. Functions are extracted verbatim from src/io/wal.rs on every run.',
-        'level_note': 'Assumed: File model (A-FILE), write_record byte layout (A-CODEC, external_body), blake3 determinism, le-bytes axiom, range preconditions (wal_size <= 2^62, sequence < u64::MAX, payload >= 1 byte). The scan side (scan_records/records_after/open_internal are iterator chains Verus cannot take) is tied to the spec scan by Kani harnesses where present in the obligation list; otherwise by assumption. Callers in mutation.rs are not under contract.',
-        'technique': 'Verus data-structure invariant + ghost view over the extracted real methods',
+        'level_text': 'Write side: unbounded deductive proof (Verus/Z3) that every public mutator of EmbeddedWal (append_entry, record_checkpoint, sentinel writers; stats read-only) preserves the representation invariant wf and moves the ghost view pending() = records a scan of the region returns with sequence > checkpoint exactly as the reference list does, for all region sizes, payload sizes and histories (invariant, no bound); rejected appends leave the object unchanged. Functions are extracted verbatim from src/io/wal.rs on every run. Scan side (BOUNDED, Kani, modular): records_after / pending_records / open / open_read_only return exactly the scanned records with sequence above the requested one, in order, payloads untouched, and set sequence / pending_bytes / write_head / checkpoint_sequence from the scan (0, 1, 2 scanned records with symbolic sequences and payload bytes) - verified against the contract of scan_records; write_record and write_zero_header are checked bit-precisely on an in-memory disk for enumerated lengths / positions.',
+        'level_note': 'Level proof refers to the write-side protocol (the invariant over all histories); the scan side is bounded and modular (Kani), and the agreement of scan_records with the spec scan on real bytes is ASSUMED (A-CODEC(scan)). Also assumed: File model (A-FILE), blake3 determinism, le-bytes axiom, range preconditions (wal_size <= 2^62, sequence < u64::MAX, payload >= 1 byte). Callers in mutation.rs are not under contract.',
+        'technique': 'Verus data-structure invariant + ghost view over the extracted real methods; Kani modular harnesses (callee contract stubs) for the scan side',
         'design_ref': 'DESIGN.md section 3 (C05), Appendix A',
         'verus': ['wal'],
-        'kani': [],
-        'assumptions': [A_FILE, A_HASH, A_LE, A_TRACE, A_ARITH, A_TOOLS],
-        'not_covered': [],
+        'kani': [
+            H(WAL, 'write_record_contract_len1_pos0', 'quick', 'bounded', 'payload 1 byte at position 0', playback=False),
+            H(WAL, 'write_record_contract_len2_pos3', 'quick', 'bounded', 'payload 2 bytes at position 3', playback=False),
+            H(WAL, 'write_record_contract_len7_pos57', 'quick', 'bounded', 'payload 7 bytes at position 57 (exact fit)', playback=False),
+            H(WAL, 'write_record_contract_len64_pos0', 'thorough', 'bounded', 'payload 64 bytes (fills the region)', playback=False),
+            H(WAL, 'write_record_contract_len1_pos63', 'thorough', 'bounded', 'payload 1 byte at position 63 (exact fit)', playback=False),
+            H(WAL, 'write_record_read_only', 'quick', 'bounded', 'payload 2 bytes', playback=False),
+            H(WAL, 'wal_zero_header_bytes_pos0', 'quick', 'bounded', 'position 0', playback=False),
+            H(WAL, 'wal_zero_header_bytes_pos64', 'quick', 'bounded', 'position size-48 (last full header)', playback=False),
+            H(WAL, 'wal_zero_header_bytes_pos65', 'quick', 'bounded', 'position size-47 (short tail)', playback=False),
+            H(WAL, 'wal_zero_header_bytes_pos111', 'thorough', 'bounded', 'position size-1', playback=False),
+            H(WAL, 'wal_zero_header_bytes_pos112', 'quick', 'bounded', 'position size (empty tail)', playback=False),
+            H(WAL, 'wal_records_after_n0_head0', 'quick', 'bounded', '0 scanned records', playback=False),
+            H(WAL, 'wal_records_after_n1_head49', 'quick', 'bounded', '1 scanned record', playback=False),
+            H(WAL, 'wal_records_after_n2_tail', 'quick', 'bounded', '2 scanned records, head in the short tail', playback=False),
+            H(WAL, 'wal_records_after_n2_full', 'thorough', 'bounded', '2 scanned records, head at the region end', playback=False),
+            H(WAL, 'wal_scan_error_propagates', 'thorough', 'bounded', 'failing scan', playback=False),
+            H(WAL, 'wal_open_rejects_zero_size', 'quick', 'complete', '', playback=False),
+            H(WAL, 'wal_open_ro_n0_head0', 'quick', 'bounded', '0 scanned records, read-only', playback=False),
+            H(WAL, 'wal_open_ro_n1_head49', 'quick', 'bounded', '1 scanned record, read-only', playback=False),
+            H(WAL, 'wal_open_ro_n2_tail', 'quick', 'bounded', '2 scanned records, read-only', playback=False),
+            H(WAL, 'wal_open_rw_n2_head', 'quick', 'bounded', '2 scanned records, writable', playback=False),
+        ],
+        # A-INPLACE: std's in-place `collect` (IntoIter<ScannedRecord> -> Vec<WalRecord>, 40-byte to 32-byte
+        # elements) makes Kani's allocator model report layout / size mismatches inside std; those checks are
+        # excluded for the harnesses that reach records_after, and only those
+        'ignore_checks': {('io::wal::verif_kani::' + h): [r'__rust_dealloc', r'unchecked_mul', r'in_place_collect']
+                          for h in ('wal_records_after_n0_head0', 'wal_records_after_n1_head49', 'wal_records_after_n2_tail',
+                                    'wal_records_after_n2_full', 'wal_scan_error_propagates')},
+        'assumptions': [A_FILE, A_HASH, A_LE, A_TRACE, A_ARITH, A_TOOLS, A_KANI_STUBS,
+                        'A-CODEC(write): Verus assumes write_record writes exactly the record image (rec_written); proved on the real function by kani:io::wal::write_record_contract_* for the enumerated payload lengths / positions',
+                        'A-CODEC(scan): scan_records computes the spec scan sp::scan - ASSUMED; the bit-precise harnesses for it (wal_scan_matches_spec_*) do not answer within the caps in this sandbox and are not part of the claim',
+                        'A-SCANSTUB: records_after / pending_records / open are verified against the contract of scan_records (a stub returning any result the contract allows for 0, 1 or 2 records)',
+                        'A-INPLACE: allocator-model artefacts of std in-place collect are excluded for the records_after harnesses (listed in evidence)'],
+        'not_covered': ['scan_records against the spec scan on real bytes (A-CODEC(scan), assumed)', 'the error path of open (drops a File: foreign function close)',
+                        'callers in mutation.rs (WAL growth, persisting the header after a checkpoint): that is C01, not claimed'],
         'search': 'wal',
     },
 
@@ -101,6 +134,7 @@ PROPS = {
             H(SKT, 'filter_contains_monotone_16'), H(SKT, 'filter_contains_extremes'),
             H(SKT, 'sketch_small_roundtrip'), H(SKT, 'sketch_small_bytes_roundtrip'), H(SKT, 'sketch_medium_roundtrip'),
             H(SKT, 'sketch_header_roundtrip'), H(SKT, 'sketch_header_rejects_bad_magic'),
+            H(SKT, 'sketch_entry_small_bytes_roundtrip'), H(SKT, 'sketch_entry_medium_bytes_roundtrip'),
         ],
         'assumptions': [A_TOOLS, A_TRACE, 'A-TOKCHAIN: every token produced by the sketch tokenizer reaches build_term_filter as hash_token(token) (unchecked: string tables, HashMap, blake3)',
                         'filter_size_bytes is one of 16/32/64 (SketchVariant::term_filter_size); size 0 would divide by zero and is outside the property'],
@@ -164,24 +198,50 @@ PROPS = {
     'C35': {
         'title': 'Snippet slices are valid, ordered, bounded ranges',
         'level': 'model_checking',
-        'level_text': 'prev_char_boundary and next_char_boundary: UNBOUNDED Verus proof on the functions extracted verbatim from src/lex.rs (result <= len, on a char boundary, nearest boundary at/below resp. at/above the index; termination). All five helpers (prev/next_char_boundary, sentence_start_before, sentence_end_after, advance_boundary) carry Kani function contracts proved by proof_for_contract over EVERY valid UTF-8 string of exactly L <= 4 bytes (L <= 3 quick) and every usize index. compute_snippet_slices is verified MODULARLY against those contracts (stub_verified): every slice is non-empty, inside the text, on char boundaries, strictly increasing and non-overlapping, at most max_snippets, slicing never panics, no arithmetic overflow - for every (usize,usize) occurrence value, every window, every max; content length L <= 4 bytes x k <= 3 occurrences (BOUNDED).',
+        'level_text': 'prev_char_boundary and next_char_boundary: UNBOUNDED Verus proof on the functions extracted verbatim from src/lex.rs (result <= len, on a char boundary, nearest boundary at/below resp. at/above the index; termination). All five helpers (prev/next_char_boundary, sentence_start_before, sentence_end_after, advance_boundary) carry Kani function contracts (requires/ensures injected on the real functions) discharged on the real functions over EVERY well-formed UTF-8 text of exactly L <= 4 bytes and every usize argument (proof_for_contract for the two loop-only helpers; plain assume-pre/assert-post harnesses over the same predicate functions for the three char_indices-based ones, where proof_for_contract exhausts memory). compute_snippet_slices is verified MODULARLY against those contracts (stub_verified): every slice is non-empty, inside the text, on char boundaries, strictly increasing and non-overlapping, at most max_snippets, slicing never panics, no arithmetic overflow - for every (usize,usize) occurrence value, every window, every max; content: every well-formed text of L <= 4 bytes x k <= 3 occurrences, plus one concrete 24-byte and one 64-byte ASCII text with 2-3 fully symbolic occurrences so that several separate slices are reachable (BOUNDED).',
         'level_note': 'Bounded by text length (<= 4 bytes, which includes every 1-4 byte scalar and mixes) and occurrence count (<= 3). The helpers sentence_start_before / sentence_end_after / advance_boundary iterate with char_indices, which Verus rejects, so their contracts are bounded.',
         'technique': 'Kani function contracts (proof_for_contract + stub_verified, modular) on the real functions; Verus loop invariants for the two char-boundary helpers',
         'design_ref': 'DESIGN.md section 3 (C35)',
         'verus': ['lex'],
         'kani': (
-            [H(LEX, '%s_l%d' % (nm, l), 'quick' if l <= (3 if nm in ('prev_boundary_contract', 'next_boundary_contract', 'advance_contract') else 2) else 'thorough', 'bounded', 'every valid UTF-8 string of %d bytes' % l, playback=False)
+            [H(LEX, '%s_l%d' % (nm, l), 'quick', 'bounded', 'every well-formed UTF-8 text of %d bytes, every usize argument' % l, playback=(nm not in ('prev_boundary_contract', 'next_boundary_contract')))
              for l in (1, 2, 3, 4) for nm in ('prev_boundary_contract', 'next_boundary_contract', 'sentence_start_contract', 'sentence_end_contract', 'advance_contract')] +
+            [H(LEX, '%s_l0' % nm, 'thorough', 'bounded', 'empty text (proof_for_contract form)', playback=False) for nm in ('sentence_start_contract', 'sentence_end_contract', 'advance_contract')] +
             [H(LEX, n, t, 'bounded', b, playback=False) for n, t, b in [
                 ('snippet_slices_l0_k1', 'quick', 'empty text, 1 occurrence'), ('snippet_slices_l1_k0', 'quick', '1 byte, 0 occurrences'),
                 ('snippet_slices_l1_k1', 'quick', '1 byte, 1 occurrence'), ('snippet_slices_l2_k1', 'quick', '2 bytes, 1 occurrence'),
-                ('snippet_slices_l3_k1', 'quick', '3 bytes, 1 occurrence'), ('snippet_slices_l2_k2', 'quick', '2 bytes, 2 occurrences'),
+                ('snippet_slices_l3_k1', 'quick', '3 bytes, 1 occurrence'),
+                ('snippet_slices_ascii24_k2', 'quick', 'one concrete 24-byte ASCII text, 2 symbolic occurrences (two separate slices reachable)'),
+                ('snippet_slices_l2_k2', 'thorough', '2 bytes, 2 occurrences'),
                 ('snippet_slices_l3_k2', 'thorough', '3 bytes, 2 occurrences'), ('snippet_slices_l4_k2', 'thorough', '4 bytes, 2 occurrences'),
-                ('snippet_slices_l3_k3', 'thorough', '3 bytes, 3 occurrences')]]
+                ('snippet_slices_l3_k3', 'thorough', '3 bytes, 3 occurrences'),
+                ('snippet_slices_ascii64_k2', 'thorough', 'one concrete 64-byte ASCII text, 2 symbolic occurrences'),
+                ('snippet_slices_ascii64_k3', 'thorough', 'one concrete 64-byte ASCII text, 3 symbolic occurrences')]]
         ),
         'assumptions': [A_TOOLS, A_TRACE, 'A-STR: str::is_char_boundary(0) and (len) hold and it is false beyond len (std documentation; axioms in the Verus unit, executed bit-precisely under Kani)',
                         'compute_snippet_slices sees its helpers only through their contracts (stub_verified): a helper change is caught by the helper\'s own proof_for_contract'],
         'not_covered': ['texts longer than 4 bytes / more than 3 occurrences (bounded)'],
         'search': 'lex',
+    },
+
+    'C22': {
+        'title': 'No panic or hang on arbitrary file bytes',
+        'level': 'model_checking',
+        'level_text': 'DECODER LAYER ONLY.  Proved without bound (Verus on functions extracted verbatim; overflow, index bounds and termination are proof obligations): find_last_valid_footer on every byte string; locate_footer_window (src/memvid/lifecycle.rs, the window-doubling scan used by open / open_read_only / verify) on every byte string, checked against find_last_valid_footer\'s contract.  Proved complete by loop-free Kani harnesses over the full input domain: HeaderCodec::decode on all 4096-byte images, CommitFooter::decode on all 56-byte images and on every wrong length, SketchTrackHeader::from_bytes / SketchEntrySmall::from_bytes on all images.  BOUNDED (Kani): read_track on every image of 12 / 28 bytes with every declared length (entry count and length fields fully symbolic); EmbeddedWal::scan_records on region images of 64 / 112 bytes with enumerated length fields.  Kani checks every panic, arithmetic overflow, slice index, unwrap and allocation-size failure on the explored paths.',
+        'level_note': 'This claim detects regressions in the byte decoders and in the footer window scan; it does NOT cover the layers above them: TOC decode under catch_unwind, index loading, tantivy, recover_toc / doctor / verify logic (1 600 + 1 700 lines of Memvid code) are outside both tools (DESIGN.md section 4, reason W).  read_sketch_track as a whole did not answer within the caps (HashMap) and is covered only through its header/entry decoders.',
+        'technique': 'Verus totality proofs (bounds, overflow, decreases) on extracted functions + Kani full-domain / bounded decoder harnesses',
+        'design_ref': 'DESIGN.md section 3 (C22)',
+        'verus': ['footer', 'lifecycle'],
+        'kani': [
+            H(HDR, 'header_decode_implies_encode'), H(FTR, 'footer_decode_implies_encode'), H(FTR, 'footer_decode_rejects_wrong_length'),
+            H(SKT, 'sketch_header_rejects_bad_magic'), H(SKT, 'sketch_small_bytes_roundtrip'),
+            H(TIX, 'time_track_rejects_n0', 'quick', 'bounded', 'all 12-byte images, any declared length'),
+            H(TIX, 'time_track_rejects_n1', 'thorough', 'bounded', 'all 28-byte images, any declared length'),
+        ],
+        'assumptions': [A_MEMRCHR, A_HASH, A_LE, A_TRACE, A_ARITH, A_TOOLS, A_KANI_STUBS,
+                        'locate_footer_window is checked against the CONTRACT of find_last_valid_footer (proved in the footer unit), not its body'],
+        'not_covered': ['Toc::decode / verify_checksum, recover_toc, scan_range_for_toc, index loading, tantivy, doctor, verify: everything above the byte decoders',
+                        'read_sketch_track as a whole (HashMap-backed track: no answer within the caps)', 'hangs other than in the two Verus-proved loops'],
+        'search': {'footer|lifecycle': 'footer'},
     },
 }
